@@ -4,7 +4,7 @@ from . import _histcheck
 
 PROPERTY = 'C11'
 LEVEL = 'exploration'
-RULE = ('per element-content type (each core also once with children that carry an explicit value_=None): core = every sequence of <=2 additions (thorough <=3 for alphabets <=10) followed by the removal of each child, every [addition, removal, addition], and every <=1 addition followed by xml_x = None; halo = seeded removal-heavy histories (add / remove / xml_x = None only, removals at every position). Only histories whose operations all succeed and contain a removal are judged. distinct = distinct operation string')
+RULE = ('per element-content type (each core also once with children that carry an explicit value_=None): core = every valid word <=3, a transition cover and short pumped words with each child in turn removed and a child of the same name added again; every sequence of <=2 additions (thorough <=3 for alphabets <=10) followed by the removal of each child, every [addition, removal, addition], and every <=1 addition followed by xml_x = None; halo = seeded removal-heavy histories (add / remove / xml_x = None only, removals at every position). Only histories whose operations all succeed and contain a removal are judged. distinct = distinct operation string')
 ASSUMPTIONS = ['reference DFAs built from /verif/ref/musicxml_4_0.xsd are the schema (self-tested, cross-checked by C03)', 'children are minimal unchecked instances so only the parent level is judged; parents carry their schema-required attributes', 'witnesses are shrunk by delta debugging before classification; beyond a fixed number per pre-signature they are only counted']
 TIMEOUT = {'quick': 900, 'thorough': 5400}
 PROPS = ('C11',)
@@ -25,7 +25,7 @@ def run_shard(shard, tier, seed):
         return _histcheck.run(shard, tier, seed, PROPERTY, [genhist.core_mixed(t, 1, ('set', 'rm')), genhist.core_remove_then_add(t)],
                               [('removal', 10, 8)] if tier == 'quick' else [('removal', 300, 12)], PROPS, shrink_per_presig=2,
                               child_value_none=True)
-    cores = [genhist.core_remove_then_add(t), genhist.core_removals(t, 2 if tier == 'quick' or len(ref.DFAS[t].alphabet) > 10 else 3), genhist.core_mixed(t, 1, ('set',))]
+    cores = [genhist.core_remove_and_restore(t, tier), genhist.core_remove_then_add(t), genhist.core_removals(t, 2 if tier == 'quick' or len(ref.DFAS[t].alphabet) > 10 else 3), genhist.core_mixed(t, 1, ('set',))]
     halos = [('removal', 70, 10)] if tier == 'quick' else [('removal', 2500, 14)]
     return _histcheck.run(shard, tier, seed, PROPERTY, cores, halos, PROPS, shrink_per_presig=3)
 
